@@ -11,6 +11,7 @@ mod child;
 mod ctx;
 mod e1;
 mod e2;
+mod model;
 mod p_e1;
 mod rng;
 
@@ -133,6 +134,7 @@ macro_rules! dispatch {
             "C04" => $f(p_e1::C04, $($arg),*),
             "C06" => $f(p_e1::C06, $($arg),*),
             "C07" => $f(p_e1::C07, $($arg),*),
+            "C09" => $f(model::C09, $($arg),*),
             "C10" => $f(p_e1::C10, $($arg),*),
             other => {
                 eprintln!("unknown or not-applicable property {other}");
